@@ -20,38 +20,70 @@ static inline float  X_nearbyint_f32(float x)  { return nearbyintf(x); }
 static inline double X_nearbyint_f64(double x) { return nearbyint(x); }
 static inline float  X_rint_f32(float x)   { return rintf(x); }
 static inline double X_rint_f64(double x)  { return rint(x); }
-static inline float  X_sqrt_f32(float x)   { return sqrtf(x); }
-static inline double X_sqrt_f64(double x)  { return sqrt(x); }
+static inline float  X_sqrt_f32(float x)   { return avm_sqrtf(x); }
+static inline double X_sqrt_f64(double x)  { return avm_sqrt(x); }
 static inline float  X_fmod_f32_f32(float x, float y)    { return fmodf(x, y); }
 static inline double X_fmod_f64_f64(double x, double y)  { return fmod(x, y); }
 static inline double X_copysign_f64_f64(double x, double y) { return copysign(x, y); }
 static inline float  X_copysign_f32_f32(float x, float y)   { return copysignf(x, y); }
-static inline int X_isgreater_f32_f32(float a, float b)       { return isgreater(a, b); }
-static inline int X_isgreater_f64_f64(double a, double b)     { return isgreater(a, b); }
-static inline int X_isgreaterequal_f32_f32(float a, float b)  { return isgreaterequal(a, b); }
-static inline int X_isgreaterequal_f64_f64(double a, double b){ return isgreaterequal(a, b); }
-static inline int X_isless_f32_f32(float a, float b)          { return isless(a, b); }
-static inline int X_isless_f64_f64(double a, double b)        { return isless(a, b); }
-static inline int X_islessequal_f32_f32(float a, float b)     { return islessequal(a, b); }
-static inline int X_islessequal_f64_f64(double a, double b)   { return islessequal(a, b); }
-static inline int X_islessgreater_f32_f32(float a, float b)   { return islessgreater(a, b); }
-static inline int X_islessgreater_f64_f64(double a, double b) { return islessgreater(a, b); }
-static inline int X_isunordered_f32_f32(float a, float b)     { return isunordered(a, b); }
-static inline int X_isunordered_f64_f64(double a, double b)   { return isunordered(a, b); }
-static inline int X_isnormal_f32(float a)   { return isnormal(a); }
-static inline int X_isnormal_f64(double a)  { return isnormal(a); }
-static inline int X_signbit_f32(float a)    { return signbit(a) != 0; }
-static inline int X_signbit_f64(double a)   { return signbit(a) != 0; }
-static inline int X_fpclassify_f64(double a){ return fpclassify(a); }
-static inline int X_fpclassify_f32(float a) { return fpclassify(a); }
-float  X_frexp_f32_pi32(float x, int32_t* e);
-double X_frexp_f64_pi32(double x, int32_t* e);
-float  X_ldexp_f32_i32(float x, int32_t e);
-double X_ldexp_f64_i32(double x, int32_t e);
-int32_t X_ilogb_f32(float x);
-int32_t X_ilogb_f64(double x);
-float  X_logb_f32(float x);
-double X_logb_f64(double x);
+/* quiet comparisons and classification: stated directly (every comparison is quiet in CBMC's theory) */
+static inline int X_isgreater_f32_f32(float a, float b)       { return a > b; }
+static inline int X_isgreater_f64_f64(double a, double b)     { return a > b; }
+static inline int X_isgreaterequal_f32_f32(float a, float b)  { return a >= b; }
+static inline int X_isgreaterequal_f64_f64(double a, double b){ return a >= b; }
+static inline int X_isless_f32_f32(float a, float b)          { return a < b; }
+static inline int X_isless_f64_f64(double a, double b)        { return a < b; }
+static inline int X_islessequal_f32_f32(float a, float b)     { return a <= b; }
+static inline int X_islessequal_f64_f64(double a, double b)   { return a <= b; }
+static inline int X_islessgreater_f32_f32(float a, float b)   { return a < b || a > b; }
+static inline int X_islessgreater_f64_f64(double a, double b) { return a < b || a > b; }
+static inline int X_isunordered_f32_f32(float a, float b)     { return a != a || b != b; }
+static inline int X_isunordered_f64_f64(double a, double b)   { return a != a || b != b; }
+static inline int X_isnormal_f32(float a)   { uint32_t e = (avm_f2u(a) >> 23) & 0xff; return e != 0 && e != 0xff; }
+static inline int X_isnormal_f64(double a)  { uint64_t e = (avm_d2u(a) >> 52) & 0x7ff; return e != 0 && e != 0x7ff; }
+static inline int X_signbit_f32(float a)    { return (int)(avm_f2u(a) >> 31); }
+static inline int X_signbit_f64(double a)   { return (int)(avm_d2u(a) >> 63); }
+static inline int X_isnan_f32(float a)      { return a != a; }
+static inline int X_isnan_f64(double a)     { return a != a; }
+static inline int X_isinf_f32(float a)      { return (avm_f2u(a) & 0x7fffffffu) == 0x7f800000u; }
+static inline int X_isinf_f64(double a)     { return (avm_d2u(a) & 0x7fffffffffffffffull) == 0x7ff0000000000000ull; }
+static inline int X_isfinite_f32(float a)   { return ((avm_f2u(a) >> 23) & 0xff) != 0xff; }
+static inline int X_isfinite_f64(double a)  { return ((avm_d2u(a) >> 52) & 0x7ff) != 0x7ff; }
+/* FP_NAN 0, FP_INFINITE 1, FP_ZERO 2, FP_SUBNORMAL 3, FP_NORMAL 4 (glibc) */
+static inline int X_fpclassify_f32(float a) { uint32_t u = avm_f2u(a), e = (u >> 23) & 0xff, f = u & 0x7fffffu; return e == 0xff ? (f ? 0 : 1) : (e == 0 ? (f ? 3 : 2) : 4); }
+static inline int X_fpclassify_f64(double a){ uint64_t u = avm_d2u(a), e = (u >> 52) & 0x7ff, f = u & 0xfffffffffffffull; return e == 0x7ff ? (f ? 0 : 1) : (e == 0 ? (f ? 3 : 2) : 4); }
+/* frexp / ldexp / ilogb / logb as the C standard defines them (binary32 and, where exact arithmetic is at hand, binary64) */
+static inline int32_t avm_ilogb_fin32(uint32_t u) { int32_t e = (int32_t)((u >> 23) & 0xff); uint32_t f = u & 0x7fffffu; if (e) return e - 127; int32_t r = -127; for (int i = 0; i < 23; i++) { if (f & 0x400000u) break; f <<= 1; r--; } return r; }
+static inline int32_t avm_ilogb_fin64(uint64_t u) { int32_t e = (int32_t)((u >> 52) & 0x7ff); uint64_t f = u & 0xfffffffffffffull; if (e) return e - 1023; int32_t r = -1023; for (int i = 0; i < 52; i++) { if (f & 0x8000000000000ull) break; f <<= 1; r--; } return r; }
+static inline int32_t X_ilogb_f32(float x) { uint32_t u = avm_f2u(x); if ((u & 0x7fffffffu) > 0x7f800000u) return (-2147483647 - 1); if ((u & 0x7fffffffu) == 0x7f800000u) return 2147483647; if ((u & 0x7fffffffu) == 0) return (-2147483647 - 1); return avm_ilogb_fin32(u); }
+static inline int32_t X_ilogb_f64(double x) { uint64_t u = avm_d2u(x), m = u & 0x7fffffffffffffffull; if (m > 0x7ff0000000000000ull) return (-2147483647 - 1); if (m == 0x7ff0000000000000ull) return 2147483647; if (m == 0) return (-2147483647 - 1); return avm_ilogb_fin64(u); }
+static inline float X_logb_f32(float x) { uint32_t u = avm_f2u(x), m = u & 0x7fffffffu; if (m > 0x7f800000u) return x; if (m == 0x7f800000u) return avm_u2f(0x7f800000u); if (m == 0) return avm_u2f(0xff800000u); return (float)avm_ilogb_fin32(u); }
+static inline double X_logb_f64(double x) { uint64_t u = avm_d2u(x), m = u & 0x7fffffffffffffffull; if (m > 0x7ff0000000000000ull) return x; if (m == 0x7ff0000000000000ull) return avm_u2d(0x7ff0000000000000ull); if (m == 0) return avm_u2d(0xfff0000000000000ull); return (double)avm_ilogb_fin64(u); }
+static inline float X_frexp_f32_pi32(float x, int32_t* e) {
+  uint32_t u = avm_f2u(x), m = u & 0x7fffffffu;
+  if (m >= 0x7f800000u) { *e = nondet_i32(); return x; }      /* inf / NaN: exponent unspecified */
+  if (m == 0) { *e = 0; return x; }
+  uint32_t f = u & 0x7fffffu;
+  if (((u >> 23) & 0xff) == 0) { for (int i = 0; i < 23; i++) { f <<= 1; if (f & 0x800000u) break; } f &= 0x7fffffu; }
+  *e = avm_ilogb_fin32(u) + 1;
+  return avm_u2f((u & 0x80000000u) | (126u << 23) | f);
+}
+static inline double X_frexp_f64_pi32(double x, int32_t* e) {
+  uint64_t u = avm_d2u(x), m = u & 0x7fffffffffffffffull;
+  if (m >= 0x7ff0000000000000ull) { *e = nondet_i32(); return x; }
+  if (m == 0) { *e = 0; return x; }
+  uint64_t f = u & 0xfffffffffffffull;
+  if (((u >> 52) & 0x7ff) == 0) { for (int i = 0; i < 52; i++) { f <<= 1; if (f & 0x10000000000000ull) break; } f &= 0xfffffffffffffull; }
+  *e = avm_ilogb_fin64(u) + 1;
+  return avm_u2d((u & 0x8000000000000000ull) | (1022ull << 52) | f);
+}
+static inline float X_ldexp_f32_i32(float x, int32_t e) {
+  uint32_t u = avm_f2u(x), m = u & 0x7fffffffu;
+  if (m >= 0x7f800000u || m == 0) return x;
+  int32_t k = e > 400 ? 400 : (e < -400 ? -400 : e);
+  return (float)((double)x * avm_u2d((uint64_t)(1023 + k) << 52));
+}
+double X_ldexp_f64_i32(double x, int32_t e);   /* no exact model at hand: functions reaching it are undecided */
 /* std::min / std::max on references: the smaller / larger operand, the first one on ties */
 static inline uint32_t* X_min_pu32_pu32(uint32_t* a, uint32_t* b) { return *b < *a ? b : a; }
 static inline uint32_t* X_max_pu32_pu32(uint32_t* a, uint32_t* b) { return *a < *b ? b : a; }
